@@ -41,6 +41,13 @@ NIsZero(a) == \A i \in 1..Len(a) : a[i] = 0
 RECURSIVE NFromInt(_)
 NFromInt(n) == IF n = 0 THEN <<>> ELSE <<n % B>> \o NFromInt(n \div B)
 
+\* long division of a natural by a small positive integer n (n < 200000 so that rem * B < 2^31)
+RECURSIVE NDivI(_, _, _, _)
+NDivI(a, n, i, rem) ==    \* returns the quotient limbs from position i downwards, most significant first
+  IF i = 0 THEN <<>>
+  ELSE LET cur == rem * B + a[i] IN <<cur \div n>> \o NDivI(a, n, i - 1, cur % n)
+Reverse1(q) == [i \in 1..Len(q) |-> q[Len(q) + 1 - i]]
+NDiv(a, n) == Reverse1(NDivI(a, n, Len(a), 0))
 FZero == [s |-> 1, m |-> <<>>]
 FInt(n) == [s |-> IF n < 0 THEN -1 ELSE 1, m |-> Shift(NFromInt(IF n < 0 THEN -n ELSE n), FR)]
 \* n / 10^(4k) as a Fix (k <= FR)
@@ -51,8 +58,11 @@ FAdd(x, y) == IF x.s = y.s THEN [s |-> x.s, m |-> NAdd(x.m, y.m)]
 FNeg(x) == [s |-> -x.s, m |-> x.m]
 FSub(x, y) == FAdd(x, FNeg(y))
 FAbs(x) == [s |-> 1, m |-> x.m]
+FDivInt(x, n) == [s |-> x.s * (IF n < 0 THEN -1 ELSE 1), m |-> NDiv(x.m, IF n < 0 THEN -n ELSE n)]   \* truncated, error < 1e-16
 DropLow(a, k) == IF Len(a) <= k THEN <<>> ELSE SubSeq(a, k + 1, Len(a))
 FMul(x, y) == [s |-> x.s * y.s, m |-> DropLow(NMul(x.m, y.m), FR)]      \* truncated towards zero, error < 1e-16
+RECURSIVE FPow(_, _)
+FPow(x, k) == IF k = 0 THEN FInt(1) ELSE FMul(x, FPow(x, k - 1))
 FMulInt(x, n) == [s |-> x.s * (IF n < 0 THEN -1 ELSE 1), m |-> NMul(x.m, NFromInt(IF n < 0 THEN -n ELSE n))]
 \* sign-aware comparison: -1, 0, 1
 FCmp(x, y) == LET xz == NIsZero(x.m) yz == NIsZero(y.m) IN
